@@ -1,2 +1,4 @@
 pub mod cfg;
+pub mod chardef;
 pub mod dic;
+pub mod norm;
